@@ -156,6 +156,8 @@ def r03_3(ctx):
             act = [v for a, v in p.conds if a[0] == "disc" and a[1] == ("field", ("param", 1), "action", TEXT)]
             exv = dict(p.conds).get(ex)
             wrote = [e[2] for e in p.events if e[0] == "write" and e[1] == ex]
+            if exv == 1 and wrote == [("const", True)]:
+                wrote = []  # storing `true` in a flag that is known to be true changes nothing
             ret = p.end[1]
             appended = [e for e in p.events if e[0] == "call" and e[1].endswith("Extend>::extend")]
             inits = {e[1]: e[3] for e in p.events if e[0] == "init"}
@@ -187,6 +189,8 @@ def r03_3(ctx):
             if p.end[0] == "ret":
                 exv = dict(p.conds).get(ex)
                 wrote = tuple(e[2] for e in p.events if e[0] == "write" and e[1] == ex)
+                if exv == 1 and wrote == (("const", True),):
+                    wrote = ()
                 rows[exv] = ("content" if p.end[1] == content else "empty" if p.end[1] in (("call", "std::vec::Vec::new", ()), ("default",)) else show(p.end[1], g), wrote)
         r.ob("text:end", rows == {0: ("content", (("const", True),)), 1: ("empty", ())}, g.site, "end(): content iff not emitted yet, and marks it emitted: %s" % rows)
         # `executed` is written only there and starts false
